@@ -444,6 +444,7 @@ def r4(ctx):
 
 
 def r6(ctx):
+    ctx.mark('minus-sign', 'C07.R6')
     ctx.rule('C07.R6', 'strtoul() skips leading white space and accepts a minus sign (the value is negated modulo 2^64), so a text '
              'parsed as unsigned is accepted only after a search for "-" in the whole input came back empty: the conversion '
              'of every strtoul result in the field input parsers is dominated by find(\'-\') == npos on the input string '
